@@ -541,6 +541,77 @@ def check_vector_objective(rng, rep, methods):
 
 
 
+
+def check_magnitude_objective(rng, rep, methods):
+    """coefficient MAGNITUDES (checklist 1) in a solved NLP: tiny (<= 1e-8) or huge multiplicative constants on terms that
+    still decide the optimum because the variables are large / small — `c·x**k − b·x` written in every operand order.
+    The callables handed to SciPy must be the hand-written f, ∇f, ∇²f, and the reported optimum the analytic one."""
+    from optyx import Problem, Variable
+    from optyx.core.expressions import Constant
+
+    n = rng.randint(1, 3)
+    k = rng.choice([2, 3, 4])
+    scale = rng.choice([1e-9, 3e-10, 1e-8, 5e-9, 1e-12, 1e8, 3e9, 1.0 + 1e-9, 1.0 - 5e-9])
+    cs = [scale * rng.choice([1.0, 2.0, 0.5]) for _ in range(n)]
+    big = scale < 1e-3
+    # optimum of c x^k − b x on x > 0:  x* = (b / (k c))^(1/(k−1))
+    xs = [float(rng.choice([400.0, 630.0, 1000.0])) if big else (float(rng.choice([1e-3, 2e-3])) if scale > 1e3 else float(rng.choice([0.75, 1.5])))
+          for _ in range(n)]
+    bs = [k * c * x ** (k - 1) for c, x in zip(cs, xs)]
+    ub = 4.0 * max(xs)
+    vs = [Variable(f"m{i}", lb=0.0, ub=ub) for i in range(n)]
+    form = rng.choice(["c*x**k", "x**k*c", "Constant(c)*x**k", "(x**k)*Constant(c)", "x**k/(1/c)"])
+    terms = []
+    for c, b, v in zip(cs, bs, vs):
+        pw = v ** k
+        t = {"c*x**k": lambda: c * pw, "x**k*c": lambda: pw * c, "Constant(c)*x**k": lambda: Constant(c) * pw,
+             "(x**k)*Constant(c)": lambda: pw * Constant(c), "x**k/(1/c)": lambda: pw / (1.0 / c)}[form]()
+        terms.append(t - b * v)
+    obj = terms[0]
+    for t in terms[1:]:
+        obj = obj + t
+    is_max = rng.random() < 0.4
+    P = Problem().maximize(-obj) if is_max else Problem().minimize(obj)
+    ca, ba = np.array(cs), np.array(bs)
+    f = lambda x: float(np.sum(ca * x ** k - ba * x))
+    g = lambda x: k * ca * x ** (k - 1) - ba
+    h = lambda x: np.diag(k * (k - 1) * ca * x ** (k - 2))
+    desc = {"n": n, "k": k, "scale": scale, "form": form, "is_max": is_max, "cs": cs, "xstar": xs}
+    for method in methods:
+        with MinimizeSpy() as spy:
+            with warnings.catch_warnings():
+                warnings.simplefilter("ignore")
+                try:
+                    s = P.solve(method=method)
+                except Exception as ex:  # noqa: BLE001
+                    rep.oracle_failures.append({"what": f"solve(method={method}) raised {type(ex).__name__}: {ex}"[:300],
+                                                "magnitude_objective": desc, "method": method})
+                    continue
+        rep.evaluations += 1
+        if not spy.calls:
+            continue
+        kw = spy.calls[0]
+        rep.histogram["magobj:" + kw["method"]] = rep.histogram.get("magobj:" + kw["method"], 0) + 1
+        sgn = -1.0 if is_max else 1.0      # optyx minimises −objective under maximize; objective = −obj there: same function
+        bad = None
+        for _ in range(4):
+            pt = np.array([x * rng.choice([0.25, 0.5, 1.0, 1.5, 2.0]) for x in xs])
+            fv, gv, hv = f(pt), g(pt), h(pt)
+            if abs(kw["fun"](pt) - fv) > 1e-9 * (1 + abs(fv)):
+                bad = ("fun", float(kw["fun"](pt)), fv)
+            elif kw.get("jac") is not None and not np.allclose(kw["jac"](pt), gv, rtol=1e-9, atol=1e-12 * (1 + np.abs(gv).max())):
+                bad = ("jac", np.asarray(kw["jac"](pt)).tolist(), gv.tolist())
+            elif kw.get("hess") is not None and not np.allclose(kw["hess"](pt), hv, rtol=1e-9, atol=1e-12 * (1 + np.abs(hv).max())):
+                bad = ("hess", np.asarray(kw["hess"](pt)).tolist(), hv.tolist())
+            if bad:
+                rep.oracle_failures.append({"what": f"the `{bad[0]}` callable handed to SciPy differs from the hand-written "
+                                                    "derivative of the user's objective (tiny / huge coefficient)",
+                                            "magnitude_objective": desc, "method": method, "point": pt.tolist(),
+                                            "got": bad[1], "want": bad[2]})
+                break
+        del sgn
+    rep.nontrivial.add(hash(("magobj", n, k, scale, form, is_max)))
+
 # ------------------------------------------------------------------ third family: _build_solver_cache vs the model
 
 
@@ -729,6 +800,9 @@ def run(ctx) -> core.Report:
         check_problem(rng, p, rep, lines, metas, METHODS)
     for i in range(150 if thorough else 30):
         check_vector_objective(rng, rep, METHODS)
+    mrng = core.Rng(ctx["seed"] * 104729 + 7)      # own stream: the other families keep their inputs
+    for i in range(120 if thorough else 24):
+        check_magnitude_objective(mrng, rep, METHODS)
     gs = ctx["seed"] * 7919 + 13
     check_glue(core.Rng(gs), rep, 700 if thorough else 120, glue_seed=gs)
     # dispatch table of Problem.solve: exhaustive over method names × linearity, against the model
@@ -826,6 +900,15 @@ def replay(payload) -> bool:
         if bad:
             print(bad[0])
             return False
+        return True
+    if "magnitude_objective" in f:
+        rep = core.Report()
+        mrng = core.Rng(payload.get("seed", 0) * 104729 + 7)
+        for _ in range(120):
+            check_magnitude_objective(mrng, rep, [f.get("method", "auto")])
+            if rep.oracle_failures:
+                print(rep.oracle_failures[0])
+                return False
         return True
     if "vector_objective" in f:
         # the family is small: re-run it (all kinds / orders are drawn within a few dozen samples)
